@@ -5,8 +5,8 @@
 From Coq Require Import Lia.
 From PV Require Import Base Crit gen.TermsTable Terms Page gen.QueryTable Query Dml.
 
-Lemma mapM_wrap_scalars : forall args, forallb is_scalar args = true ->
-  mapM wrap_arg args = Ok (map wrap_constant (flat_map (fun a => match a with AVal v => [v] | ASeq _ _ => [] end) args)).
+Lemma mapM_wrap_scalars c : forall args, forallb is_scalar args = true ->
+  mapM (wrap_arg c) args = Ok (map (wrap_constant c) (flat_map (fun a => match a with AVal v => [v] | ASeq _ _ => [] end) args)).
 Proof.
   induction args as [|a r IH]; intros H; [reflexivity|]. cbn [forallb] in H. apply andb_prop in H as [Ha Hr].
   destruct a as [v|k l]; [|discriminate]. cbn [mapM wrap_arg flat_map app map]. rewrite (IH Hr). reflexivity.
@@ -18,13 +18,13 @@ Proof.
   destruct a as [v|k l]; [discriminate|]. cbn [mapM iter_arg map]. rewrite (IH Hr). reflexivity.
 Qed.
 (* _apply_terms on legal arguments: all scalars = one row; all tuples/lists = one row each *)
-Lemma arg_rows_legal args : legal_args args = true -> arg_rows args = Ok (map (map wrap_constant) (rows_of_args args)).
+Lemma arg_rows_legal c args : legal_args args = true -> arg_rows c args = Ok (map (map (wrap_constant c)) (rows_of_args args)).
 Proof.
   unfold legal_args. intros H. destruct args as [|a r]; [reflexivity|].
   destruct a as [v|k l].
   - assert (Hs : forallb is_scalar (AVal v :: r) = true).
     { apply orb_prop in H as [H|H]; [exact H|discriminate]. }
-    cbn [arg_rows rows_of_args]. rewrite (mapM_wrap_scalars _ Hs). reflexivity.
+    cbn [arg_rows rows_of_args]. rewrite (mapM_wrap_scalars c _ Hs). reflexivity.
   - assert (Hs : forallb is_row (ASeq k l :: r) = true).
     { apply orb_prop in H as [H|H]; [discriminate|exact H]. }
     cbn [arg_rows rows_of_args]. rewrite (mapM_iter_rows _ Hs). reflexivity.
@@ -46,7 +46,7 @@ Qed.
 
 (* the positional description of the state reached from [st] by the calls [cs] *)
 Definition positional (tb : option tref) (st : dstate) (cs : list call) (st' : dstate) : Prop :=
-  d_values st' = (d_values st ++ map (map wrap_constant) (rows_of_calls cs))%list
+  d_values st' = (d_values st ++ map (map (wrap_constant (d_cls st))) (rows_of_calls cs))%list
   /\ d_columns st' = (d_columns st ++ match tb with Some t => map (col_term t) (cols_of_calls cs) | None => [] end)%list
   /\ d_updates st' = (d_updates st ++ map (fun p => (set_field (fst p), wrap_set (d_cls st) (snd p))) (sets_of_calls cs))%list
   /\ (d_replace st', d_ior st') = fold_left flag_step cs (d_replace st, d_ior st)
@@ -67,7 +67,7 @@ Proof.
   unfold rows_of_calls, cols_of_calls, sets_of_calls, froms_of_calls, sels_of_calls in *.
   cbn [flat_map fold_left] in *. rewrite !app_nil_r in *.
   repeat split.
-  - rewrite B1, A1, map_app, app_assoc. reflexivity.
+  - rewrite B1, A1, A9, map_app, app_assoc. reflexivity.
   - rewrite B2, A2. destruct tb; rewrite ?map_app, ?app_assoc, ?app_nil_r; reflexivity.
   - rewrite B3, A3, A9, map_app, app_assoc. reflexivity.
   - rewrite B4, A4. reflexivity.
@@ -88,10 +88,10 @@ Proof.
   intros Hin Hok. unfold positional, rows_of_calls, cols_of_calls, sets_of_calls, froms_of_calls, sels_of_calls.
   destruct cl as [a|a|a|a|f v|t sels|w|n]; cbn [call_ok] in Hok; cbn [step flat_map fold_left flag_step where_step limit_step rows_of_call app map].
   - rewrite Hin, (col_args_legal a Hok). eexists; split; [reflexivity|]. cbn. rewrite !app_nil_r. repeat split; auto.
-  - unfold apply_terms. rewrite Hin, (arg_rows_legal a Hok). eexists; split; [reflexivity|]. cbn. rewrite !app_nil_r. repeat split; auto.
-  - unfold apply_terms. rewrite Hin, (arg_rows_legal a Hok). eexists; split; [reflexivity|]. cbn. rewrite !app_nil_r. repeat split; auto.
+  - unfold apply_terms. rewrite Hin, (arg_rows_legal (d_cls st) a Hok). eexists; split; [reflexivity|]. cbn. rewrite !app_nil_r. repeat split; auto.
+  - unfold apply_terms. rewrite Hin, (arg_rows_legal (d_cls st) a Hok). eexists; split; [reflexivity|]. cbn. rewrite !app_nil_r. repeat split; auto.
   - apply andb_prop in Hok as [Hok Hcl]. destruct (d_cls st) eqn:Ecl; try discriminate Hcl.
-    unfold apply_terms. rewrite Hin, (arg_rows_legal a Hok). eexists; split; [reflexivity|]. cbn. rewrite !app_nil_r. repeat split; auto.
+    unfold apply_terms. rewrite Hin, Ecl, (arg_rows_legal CSQLLite a Hok). eexists; split; [reflexivity|]. cbn. rewrite !app_nil_r. repeat split; auto.
   - eexists; split; [reflexivity|]. cbn. rewrite !app_nil_r. repeat split; auto.
   - eexists; split; [reflexivity|]. cbn. rewrite !app_nil_r. repeat split; auto.
   - eexists; split; [reflexivity|]. cbn. rewrite !app_nil_r. repeat split; auto.
